@@ -32,16 +32,18 @@ def iflatten(iterable):
     if not isinstance(iterable, (list, tuple)):
         yield iterable
         return
-    remainder = iter(iterable)
-    while True:
-        try:
-            first = next(remainder)
-        except StopIteration:
-            return
-        if isinstance(first, (list, tuple)):
-            remainder = itertools.chain(first, remainder)
+    # one iterator per nesting level: chaining a new iterator in front of the remainder for
+    # every sub-list nests the chains one level per sub-list, which makes a range of n rows
+    # cost n*n steps and overflows the C stack for a few hundred thousand rows
+    pending = [iter(iterable)]
+    while pending:
+        for item in pending[-1]:
+            if isinstance(item, (list, tuple)):
+                pending.append(iter(item))
+                break
+            yield item
         else:
-            yield first
+            pending.pop()
 
 
 def flatten(l):
